@@ -176,6 +176,11 @@ func runC19(tier string) int {
 		// variables, host name, process id (pigeon asks for none of them on the
 		// pinned tree; see evidence environment_reads)
 		f.EnvSeed = o.seed>>3 | 1
+		// ... and the grammar file has whatever name its owner gave it (the text and
+		// the flags are the input, the name is not)
+		if d.viaFile && !ins[rf.input].Rebuild && rf.order%4 == 3 {
+			d.inName = "src/calc.v2.peg"
+		}
 		c := makeCase(fmt.Sprintf("%s-i%d-o%d", tag, rf.input, rf.order), ins[rf.input], d, f, o.mode, o.seed, 2)
 		if ins[rf.input].Rebuild {
 			// library use with a fault in the process history, and with a build
@@ -414,7 +419,19 @@ func c19Minimise(tw *toolWorld, seed uint64, idx int, in toolInput, sigs map[str
 	pair := func(x, y tooldriver.Case) *c19Replay {
 		return &c19Replay{Input: in.Name, Grammar: string(in.Grammar), Sessions: [][]tooldriver.Case{{x}, {y}}, Target: [][2]int{{0, 0}, {1, 0}}}
 	}
-	if (ca.Faults.InChunkSeed != cb.Faults.InChunkSeed || ca.Faults.EnvSeed != cb.Faults.EnvSeed) && differs(rp) {
+	if ca.GrammarFile != cb.GrammarFile && ca.GrammarFile != "" && cb.GrammarFile != "" && differs(rp) {
+		// the grammar was read under two names: with the same name (and the same
+		// map order) on both sides, is the difference gone?
+		c0 := cb
+		c0.MapMode, c0.MapSeed = ca.MapMode, ca.MapSeed
+		if differs(pair(ca, c0)) {
+			cn := renameGrammar(c0, ca.GrammarFile)
+			if !differs(pair(ca, cn)) {
+				rp, kind = pair(ca, c0), "grammar-file-name"
+			}
+		}
+	}
+	if kind == "map-order" && (ca.Faults.InChunkSeed != cb.Faults.InChunkSeed || ca.Faults.EnvSeed != cb.Faults.EnvSeed) && differs(rp) {
 		// the two runs also differ in how the grammar bytes arrived and in what
 		// the process was told about its machine. Make the sides equal one thing
 		// at a time: map order first, then the read chunks, then the machine.
@@ -443,7 +460,7 @@ func c19Minimise(tw *toolWorld, seed uint64, idx int, in toolInput, sigs map[str
 			kind = "concurrent-builds"
 		}
 	}
-	if kind == "read-chunking" || kind == "concurrent-builds" || kind == "environment" {
+	if kind == "read-chunking" || kind == "concurrent-builds" || kind == "environment" || kind == "grammar-file-name" {
 		// nothing more to establish
 	} else if !differs(rp) {
 		// 2. history matters: keep the session prefixes
@@ -475,7 +492,7 @@ func c19Minimise(tw *toolWorld, seed uint64, idx int, in toolInput, sigs map[str
 		// fresh processes: nothing replayable, nothing to report
 		return nil
 	}
-	if kind == "map-order" || kind == "read-chunking" || kind == "concurrent-builds" || kind == "environment" {
+	if kind == "map-order" || kind == "read-chunking" || kind == "concurrent-builds" || kind == "environment" || kind == "grammar-file-name" {
 		// 3. reduce the grammar line by line (both target cases carry the same text)
 		setGrammar := func(rp *c19Replay, g []byte) {
 			for s := range rp.Sessions {
@@ -529,4 +546,28 @@ func replayC19(tw *toolWorld, rp *c19Replay) (bool, string) {
 		}
 	}
 	return len(set) > 1, strings.Join(sigs, "\n  ")
+}
+
+// renameGrammar returns the case with its grammar file under another name.
+func renameGrammar(c tooldriver.Case, name string) tooldriver.Case {
+	if c.GrammarFile == "" || c.GrammarFile == name {
+		return c
+	}
+	files := map[string][]byte{}
+	for k, v := range c.Files {
+		if k == c.GrammarFile {
+			files[name] = v
+		} else {
+			files[k] = v
+		}
+	}
+	args := append([]string(nil), c.Args...)
+	for i := len(args) - 1; i >= 0; i-- {
+		if args[i] == c.GrammarFile {
+			args[i] = name
+			break
+		}
+	}
+	c.Files, c.Args, c.GrammarFile = files, args, name
+	return c
 }
